@@ -343,6 +343,10 @@ def run(ctx):
     escape_checks(prog, R, "C12-R3", "C12-R4")
     scanner_shape(ctx, R)
     operator_registration(ctx, R)
+    # operators are split by longest match: the lookup structure is the trie (shared clause with C28)
+    from rules import c28
+    from vlib.refile import refile
+    refile(ctx, c28, {"C28-R6": "C12-R8"}, "C28")
 
 
 def scanner_shape(ctx, R):
@@ -469,6 +473,19 @@ def escape_checks(prog, R, r3, r4):
         fs = {noid(k) for (k, pol) in un.cfg.facts_at(conts[0]) if pol}
         ok = any("cstr[i] == escapeChar" in k for k in fs) and any("cstr[(i + 1)] == c" in k for k in fs)
     R.ob(r3, ok, un.q, "unescape drops escapeChar exactly before the delimiter", un.site(conts[0]) if conts else un.relfile, "inverse of escape()")
+    # ... and on nothing else: escape() writes the escape character in front of EVERY delimiter, independent of what precedes it, so the
+    # inverse may look at the current character and the next one only
+    extra = []
+    if conts:
+        import re as _re
+        for (k, pol) in un.cfg.facts_at(conts[0]):
+            t = noid(k)
+            subs = set(_re.findall(r"cstr\[([^\]]*)\]", t))
+            if subs - {"i", "(i + 1)"}:
+                extra.append(t)
+    R.ob(r3, not extra, un.q, "the drop depends on the current and the next character only", un.site(conts[0]) if conts else un.relfile,
+         "position independent, like escape()" if not extra else
+         "the decision to drop the escape character also looks at %s: escape() escapes every delimiter whatever precedes it, so `\\\\\\\"` (escaped backslash, escaped quote) is not inverted and the printed literal is malformed" % extra)
 
     # ---- R4 --------------------------------------------------------------------------
     def delim_of(f, fname):
